@@ -183,6 +183,27 @@ def _obs(meas_objs, pool_index):
   return out
 
 
+def _issue(state, enum, diagnoses_lib, r, desc):
+  """a diagnosis result issued the way the framework issues it: a phase diagnoser run by the DiagnosesManager after an
+  (earlier) phase; odd result ids are issued as INTERNAL diagnoses, which count for conditional validators like any other"""
+  import openhtf as htf
+  from openhtf.core import phase_executor, phase_descriptor
+
+  def diag(phase_record):
+    return diagnoses_lib.Diagnosis(enum['R%d' % r], desc, is_internal=bool(r % 2))
+  diag.__name__ = 'issuer_diag_%d' % r
+  diagnoser = diagnoses_lib.PhaseDiagnoser(enum, name='issuer_diag_%d' % r)(diag)
+
+  def issuer(test):
+    pass
+  issuer.__name__ = 'issuer_%d' % r
+  ph = htf.diagnose(diagnoser)(issuer)
+  c = state.running_phase_context(ph)
+  ps = c.__enter__()
+  ps.result = phase_executor.PhaseExecutionOutcome(phase_descriptor.PhaseResult.CONTINUE)
+  c.__exit__(None, None, None)
+
+
 ENDS = ['CONTINUE', 'REPEAT', 'SKIP', 'FAIL_AND_CONTINUE', 'FAIL_SUBTEST', 'STOP', 'TIMEOUT']
 
 
@@ -243,7 +264,7 @@ def run_real(case):
     st0 = test_state.TestState(t.descriptor, 'verif-c06-prior', t._test_options)
     try:
       for r in case['prior']:
-        st0.diagnoses_manager.store._add_diagnosis(diagnoses_lib.Diagnosis(enum['R%d' % r], 'present in the earlier run'))
+        _issue(st0, enum, diagnoses_lib, r, 'present in the earlier run')
       c0 = st0.running_phase_context(phase)
       p0 = c0.__enter__()
       from openhtf.core import phase_executor, phase_descriptor
@@ -254,7 +275,7 @@ def run_real(case):
   state = test_state.TestState(t.descriptor, 'verif-c06', t._test_options)
   try:
     for r in case.get('store', []):
-      state.diagnoses_manager.store._add_diagnosis(diagnoses_lib.Diagnosis(enum['R%d' % r], 'present at phase start'))
+      _issue(state, enum, diagnoses_lib, r, 'present at phase start')
     trace = []
     ctxm = state.running_phase_context(phase)
     ps = ctxm.__enter__()
